@@ -31,7 +31,7 @@ def jobs():
                 if n >= 2:
                     # a heap of n >= 2 entries: the unbounded product proof does not converge within the budget;
                     # bounded stand-in (streams of up to `unroll` pulls, all orderings/ties symbolic), labelled bounded
-                    o.update({"mode": "bounded", "unroll": 4, "budget_s": 900})
+                    o.update({"mode": "bounded", "unroll": 4 if n == 2 else 3, "budget_s": 900})
                 J.append(Job(f"{fn}[{'bounded ' if n >= 2 else ''}n={n},key={int(keyed)}]", ("heapq", fn), ("stdlib:heapq", fn), mk, kind="coro",
                              props=("C02", "C06", "C04", "C18"), max_paths=60000, thorough=(n == 3), faults=(n < 2), opts=o))
     return J
